@@ -13,7 +13,8 @@
 (*                                                                         *)
 (* obs = [b |-> [tip |-> <<id,h>>, byH, hOf, byHash],   block-header store *)
 (*        f |-> [tip |-> <<id,h>>, byH],   filter-header store (by block)  *)
-(*        ev |-> events emitted by the step: <<kind,id,h,newTip,seenFTip>> *)
+(*        ev |-> events emitted by the step:                               *)
+(*               <<kind,id,h,newTip,seenFTip,seenBacklogTip>>              *)
 (*               kind 1 = connected, 2 = disconnected                      *)
 (*        bl |-> bl[k] = NotificationsSinceHeight(k) as ids, <<ERR>> on err*)
 (*        sync |-> index of the sync peer or 0, cur |-> 1 if "current",    *)
@@ -105,8 +106,9 @@ C02Viol(o, act, o2) ==
       th  == Len(C) - 1
       b   == act.batch
       listened == o.sync = act.p \/ o.cur = 1
-      ext == act.op = "Headers" /\ FullyValidBatch(b) /\ Par(b[1]) = C[Len(C)]
-      hv  == /\ act.op = "Headers" /\ FullyValidBatch(b) /\ ~InSeq(C, b[1])
+      \* act.k = 1: the store reported an I/O error for the batch write
+      ext == act.op = "Headers" /\ act.k = 0 /\ FullyValidBatch(b) /\ Par(b[1]) = C[Len(C)]
+      hv  == /\ act.op = "Headers" /\ act.k = 0 /\ FullyValidBatch(b) /\ ~InSeq(C, b[1])
              /\ \E g \in 0..(th - 1) :
                    /\ C[g + 1] = Par(b[1]) /\ g >= LastCpReached(th)
                    /\ SumWork(b) > SumWork(SubSeq(C, g + 2, Len(C)))
@@ -118,7 +120,12 @@ C02Viol(o, act, o2) ==
         THEN {"AdoptedNotFromBatch"} ELSE {})
   \cup (IF rem # <<>> /\ add # <<>> /\ f < LastCpReached(th)
         THEN {"ReorgBelowCheckpoint"} ELSE {})
-  \cup (IF rem # <<>> /\ add # <<>> /\ SumWork(add) <= SumWork(rem)
+  \* the competing branch is what the peer offered from the first adopted
+  \* header on (the client may adopt only a prefix of it in this step, e.g. up
+  \* to a checkpoint; WorkDecreased below guards what is actually stored)
+  \cup (IF rem # <<>> /\ add # <<>> /\ InSeq(b, add[1])
+           /\ LET i == CHOOSE k \in 1..Len(b) : b[k] = add[1]
+              IN  SumWork(SubSeq(b, i, Len(b))) <= SumWork(rem)
         THEN {"ReorgNotHeavier"} ELSE {})
   \cup (IF rem # <<>> /\ add = <<>> /\ ~(act.op = "Headers" /\ FailsCheckpoint(b))
         THEN {"IllegalTruncation"} ELSE {})
@@ -158,6 +165,11 @@ C19Viol(o, act, o2) ==
                         /\ evC[j][2] = C2[ft + j + 1]
                         /\ evC[j][5] >= evC[j][3] )
         THEN {"ConnectEvents"} ELSE {})
+  \* a backlog requested at the moment a connected event is delivered must
+  \* already include that block (for disconnects the handler runs on while the
+  \* observer asks, so nothing stable can be observed there: field is -1)
+  \cup (IF \E j \in 1..Len(o2.ev) : o2.ev[j][1] = 1 /\ o2.ev[j][6] < o2.ev[j][3]
+        THEN {"BacklogAtEvent"} ELSE {})
   \cup (IF \E i \in 1..Len(o2.ev) : \E j \in 1..Len(o2.ev) :
               i < j /\ o2.ev[i][1] = 1 /\ o2.ev[j][1] = 2
         THEN {"EventOrder"} ELSE {})
